@@ -20,6 +20,68 @@ pub struct Case {
     pub barrier: bool,
     /// single-threaded calls made before and after the burst
     pub singles: u8,
+    /// number of fresh child processes whose FIRST calls are made concurrently (0: none)
+    #[serde(default)]
+    pub fresh: u8,
+}
+
+/// Child process: `threads` threads spin until all are ready, then each makes `calls` calls; prints one path per line.
+pub fn first_calls_child(threads: usize, calls: usize, part: &str) -> i32 {
+    use std::sync::atomic::{AtomicUsize, Ordering};
+    let ready = Arc::new(AtomicUsize::new(0));
+    let handles: Vec<_> = (0..threads)
+        .map(|_| {
+            let ready = ready.clone();
+            let part = part.to_string();
+            std::thread::spawn(move || {
+                ready.fetch_add(1, Ordering::SeqCst);
+                while ready.load(Ordering::SeqCst) < threads {
+                    std::hint::spin_loop();
+                }
+                (0..calls).map(|_| temp_file_name(&part)).collect::<Vec<_>>()
+            })
+        })
+        .collect();
+    let mut out = String::new();
+    for h in handles {
+        match h.join() {
+            Ok(paths) => {
+                for p in paths {
+                    out.push_str(&p.to_string_lossy());
+                    out.push('\n');
+                }
+            }
+            Err(_) => return 3,
+        }
+    }
+    print!("{}", out);
+    0
+}
+
+/// Run one fresh process and check its paths; returns the number of paths.
+fn fresh_process(threads: usize, calls: usize, part: &str) -> Result<u64, Fail> {
+    let exe = std::env::current_exe().map_err(|e| Fail::new("infra", format!("current_exe: {}", e)))?;
+    let outp = std::process::Command::new(exe).arg("c20-first").arg(threads.to_string()).arg(calls.to_string()).arg(part).output().map_err(|e| Fail::new("infra", format!("cannot start the child process: {}", e)))?;
+    if !outp.status.success() {
+        return Err(Fail::new("infra", format!("the child process failed: {:?}", outp.status)));
+    }
+    let text = String::from_utf8_lossy(&outp.stdout);
+    let mut seen: HashSet<&str> = HashSet::new();
+    let mut count = 0u64;
+    for line in text.lines() {
+        count += 1;
+        if !seen.insert(line) {
+            return Err(Fail::new("duplicate-path", format!("temp_file_name returned {} twice among the first calls of a fresh process ({} threads x {} calls)", line, threads, calls)));
+        }
+        let name = line.rsplit('/').next().unwrap_or(line);
+        if !name.contains(part) {
+            return Err(Fail::new("name-part-missing", format!("the file name {:?} does not contain the caller's name part {:?}", name, part)));
+        }
+    }
+    if count != (threads * calls) as u64 {
+        return Err(Fail::new("infra", format!("the child process printed {} paths instead of {}", count, threads * calls)));
+    }
+    Ok(count)
 }
 
 /// every path handed out in this process so far (two independent 64-bit digests)
@@ -36,7 +98,7 @@ fn digest(p: &std::path::Path) -> (u64, u64) {
 impl Prop for C20 {
     type Case = Case;
     const ID: &'static str = "C20";
-    const RULE: &'static str = "generated configurations: 2..64 threads (more than the 16 cores included) x 1..5000 calls per thread, released from a barrier or not, name parts empty / long / non-ASCII / shared between threads, a few single-threaded calls before and after each burst; 16 such rounds run concurrently in the process. Oracle over the whole history of the process: no path is ever returned twice (a process-wide set of all paths returned so far), every path's file name contains the caller's name part. Schedules are sampled by the OS scheduler, not enumerated. Non-trivial: >= 2 threads making >= 100 calls each in one burst; distinct by configuration.";
+    const RULE: &'static str = "generated configurations: 2..64 threads (more than the 16 cores included) x 1..5000 calls per thread, released from a barrier or not, name parts empty / long / non-ASCII / with dots and spaces / shared between threads, a few single-threaded calls before and after each burst; 16 such rounds run concurrently in the process; in 30% of the cases 1..4 fresh child processes are started whose FIRST calls are made by 2..16 spinning threads at once (their paths are checked in the same way). Oracle over the whole history of the process: no path is ever returned twice (a process-wide set of all paths returned so far), every path's file name contains the caller's name part. Schedules are sampled by the OS scheduler, not enumerated. Non-trivial: >= 2 threads making >= 100 calls each in one burst; distinct by configuration.";
 
     fn cases(tier: Tier) -> u32 {
         tier.pick(320, 1200)
@@ -45,6 +107,9 @@ impl Prop for C20 {
     fn strategy(_tier: Tier, _cfg: &str) -> BoxedStrategy<Case> {
         let part = prop_oneof![
             4 => "[a-z]{1,8}",
+            2 => "[a-z]{1,5}\\.[a-z]{1,4}",
+            1 => "[a-z]{1,3}\\.[a-z]{1,3}\\.[a-z]{1,3}\\.?",
+            1 => "[a-z]{1,4} [a-z_-]{1,4}",
             1 => Just(String::new()),
             1 => Just("shared".to_string()),
             1 => "[a-z0-9_-]{40,80}",
@@ -52,7 +117,8 @@ impl Prop for C20 {
         ];
         let threads = prop_oneof![1 => 2u8..8, 5 => 8u8..=24, 2 => 24u8..=64];
         let calls = prop_oneof![1 => 1u16..100, 6 => 500u16..2500, 1 => 2500u16..5000];
-        (threads, calls, proptest::collection::vec(part, 1..4), proptest::bool::weighted(0.8), 0u8..4).prop_map(|(threads, calls, parts, barrier, singles)| Case { threads, calls, parts, barrier, singles }).boxed()
+        let fresh = prop_oneof![7 => Just(0u8), 3 => 1u8..5];
+        (threads, calls, proptest::collection::vec(part, 1..4), proptest::bool::weighted(0.8), 0u8..4, fresh).prop_map(|(threads, calls, parts, barrier, singles, fresh)| Case { threads, calls, parts, barrier, singles, fresh }).boxed()
     }
 
     fn run(case: &Case) -> CaseResult {
@@ -112,6 +178,15 @@ impl Prop for C20 {
             }
         }
         rep.evals = all.len() as u64;
+        // fresh processes: the first calls of a process are made by several threads at once
+        for k in 0..case.fresh as usize {
+            let part = &case.parts[k % case.parts.len()];
+            let t = 2 + (threads + 3 * k) % 15;
+            let c = 1 + (calls + 7 * k) % 40;
+            rep.evals += fresh_process(t, c, part)?;
+            rep.class("fresh-process(first calls concurrent)");
+        }
+        rep.class_if(case.parts.iter().any(|p| p.contains('.')), "name-part-with-dots");
         rep.class(match threads {
             2..=7 => "threads:2-7",
             8..=16 => "threads:8-16",
@@ -131,6 +206,11 @@ impl Prop for C20 {
         let heavy = classes.get("heavy-burst(>=8 threads x >=500 calls)").copied().unwrap_or(0);
         if total == 0 || heavy * 10 < total * 6 {
             return Err(format!("only {} of {} rounds are heavy bursts (need >= 60%)", heavy, total));
+        }
+        for c in ["fresh-process(first calls concurrent)", "name-part-with-dots"] {
+            if classes.get(c).copied().unwrap_or(0) == 0 {
+                return Err(format!("no generated case reached class {}", c));
+            }
         }
         Ok(())
     }
